@@ -99,10 +99,13 @@ def judge(desc, spec):
         if op[0] == 'value':
             if obs['error'] is not None:
                 out.append(Violation(f'{desc["name"]}: value request failed', f'history {hist}: {obs["error"]}\n{obs.get("tb", "")}', case))
-            elif obs['run_objs'] != exp['run_objs']:
+            elif sorted(map(repr, obs['run_objs'])) != sorted(map(repr, exp['run_objs'])):
+                # the property speaks about WHICH computations run (a multiset), not their order: a task whose run()
+                # takes its inputs as arguments has them evaluated before its own run starts, a task that pulls them
+                # from the registry after
                 extra = [r for r in obs['run_objs'] if r not in exp['run_objs']]
                 missing = [r for r in exp['run_objs'] if r not in obs['run_objs']]
-                kind = 'runs-more' if extra else ('runs-fewer' if missing else 'runs-order')
+                kind = 'runs-more' if extra else ('runs-fewer' if missing else 'runs-repeated')
                 out.append(Violation(
                     f'{desc["name"]}: {kind} on value request',
                     f'history {hist}: requesting `{op[2]}` executed run of {obs["runs"]}, the model (memory, store, lazy pull order) predicts {exp["runs"]}', case))
@@ -199,10 +202,10 @@ def run(tier, seed):
     res.coverage['traces_validated_against_impl'] = res.coverage['evaluations']
     res.coverage['exhaustive'] = True
     res.coverage['rule'] = ('per world: every history over {new(slot,variant), value(slot,task), inspect(slot), restart}, two live slots, up to the stateless depth, then '
-                            'canonical-state-merged BFS to the merged depth; oracle after every step: invocation-log delta == predicted run list; '
+                            'canonical-state-merged BFS to the merged depth; oracle after every step: invocation-log delta == predicted multiset of runs; '
                             'distinct_nontrivial = distinct observation vectors')
     res.assumptions += ['"restart" drops every live object in-process; real interpreter restarts are exercised by the process leg',
-                        'run order inside one request is compared exactly (depth-first pull order of the generated run bodies)']
+                        'the runs of one request are compared as a multiset (which computations ran, how often); their order is not part of the property']
     return res
 
 
